@@ -144,6 +144,19 @@ def _is_call(node, attr):
 
 # ---- constructor programs: symbolic execution of the `__init__` bodies (AST) ---------------------------------------------
 
+_STRICT = [True]
+_DOC_STORES = {
+    "serial": [("device", ["device"]), ("_baudrate", ["baudrate"]), ("_bytesize", ["bytesize"]), ("_parity", ["parity"]),
+               ("_stopbits", ["stopbits"]), ("_rtscts", ["rtscts"])],
+    "tcp": [("_address", ["host", "port"]), ("_connect_timeout", ["connect_timeout"])],
+    "udp": [("_address", ["host", "port"])],
+    "usbtmc": [("vendorid", ["vendorid"]), ("productid", ["productid"]), ("serialnr", ["serialnr"])],
+    "gpib": [("_primary_addr", ["primary_addr"]), ("_board", ["board"]), ("_secondary_addr", ["secondary_addr"]),
+             ("_connect_timeout", ["connect_timeout"])],
+    "vxi11": [("_host", ["host"])],
+}
+
+
 def _func_ast(fn):
     src = textwrap.dedent(inspect.getsource(fn))
     node = ast.parse(src).body[0]
@@ -372,7 +385,17 @@ def _ctor_of(cls) -> dict:
         args.append((p.name, None if p.default is p.empty else ("some", p.default)))
     binding = {p: p for p, _ in args}
     binding["__outer_class__"] = cls
-    prog = _init_prog(cls, binding)
+    try:
+        prog = _init_prog(cls, binding)
+    except TranslatorError:
+        if _STRICT[0]:
+            raise
+        # degraded description for the harness only (never written to Gen): attributes as documented per class family
+        names = [c.__name__ for c in cls.__mro__]
+        kind = next((k for base, k in _KIND_BY_BASE if base in names), None)
+        prog = []
+        for attr, src in _DOC_STORES.get(kind, []):
+            prog.append(("store", attr, src))
     return {"cls": cls.__name__, "args": args, "prog": prog}
 
 
@@ -687,9 +710,18 @@ _TABLES = None
 
 
 def tables_cached() -> dict:
+    """the tables for generators and canonicalisation; if an `__init__` body is not understood (the translator has then
+    already reported a broken link) fall back to the documented attribute names so that the oracle still runs"""
     global _TABLES
     if _TABLES is None:
-        _TABLES = read_tables()
+        try:
+            _TABLES = read_tables()
+        except TranslatorError:
+            _STRICT[0] = False
+            try:
+                _TABLES = read_tables()
+            finally:
+                _STRICT[0] = True
     return _TABLES
 
 
@@ -806,7 +838,7 @@ HOSTS_NEAR = ["a-", "-a", "1.2.3", "1.2.3.4.5", "256.1.1.1", "01.2.3.4", "a..b",
 INTS = ["1", "5", "50", "5025", "65535", "65536", "0", "-1", "+5", " 5", "5 ", "0x10", "0X10", "1_0", "1__0", "_1", "1_", "٥", "\U0001d7d9\U0001d7da",
         "", "5.0", "1e3", "35999", "35998", "36000", "007", "0x", "0xg", "0x_1f", "0xffff", "0x10000", "8", "4", "9", "9600", "115200",
         "99999999999999999999", "١٢", "1\x00", "\x0b7", "\x1c7", "7 ", "0b1", "0o7", "-0", "0x-1", "0x1F"]
-FLOATS = ["1", "1.0", "1.5", "2", "2.0", "3", "0.5", "1e0", "15e-1", "20e-1", "1.0000000000000001", "1.00000000000000000000001",
+FLOATS = ["0", "0.0", "-0.0", "1", "1.0", "1.5", "2", "2.0", "3", "0.5", "1e0", "15e-1", "20e-1", "1.0000000000000001", "1.00000000000000000000001",
           ".5", "5.", "inf", "-inf", "nan", "Infinity", "infinit", "1_0", "1__0", "1_.5", "", "abc", "1e", "1e+", "0x1p0", " 1.5 ", "١.٥",
           "1.4999999999999999999", "1.5000000000000002", "1.5000000000000001", "0.99999999999999994", "0.99999999999999995",
           "0.999999999999999944488848768742172978818416595458984375", "0.99999999999999994448884876874217297881841659545898437",
@@ -816,7 +848,8 @@ FLOATS = ["1", "1.0", "1.5", "2", "2.0", "3", "0.5", "1e0", "15e-1", "20e-1", "1
 BOOLS = ["True", "False", "true", "1", "0", "TRUE", "", "False ", "yes"]
 PARITY = ["N", "E", "O", "n", "X", "NE", "", "N "]
 DEVICES = ["COM3", "com3", "/dev/ttyUSB0", "/dev/ttyS1", "COM", "CO", "tty", "\\\\.\\COM10", "cOm1", "[/dev/x]", "/", "COM10", "dev/tty", "Com", "KOM1"]
-SERIALS = ["XYZ", "DS1K00005888", "A B", "[x]", "0x12", "a-b_c.d", "MY50000123", "1", "été", "x]y", "a$b"]
+SERIALS = ["XYZ", "DS1K00005888", "A B", "[x]", "0x12", "a-b_c.d", "MY50000123", "1", "été", "x]y", "a$b",
+           "%3A", "a%25b", "%", "%3a", "%253A", "50%", "%3", "%2525", "A%3AB%25"]
 IDS = ["0x1234", "1234", "0", "65535", "65536", "-1", "0xffff", "0x10000", "0XFF", "0x0699", "1689", "0x_12", "12_34", "0x", "0xa1", "0x-1", " 0x12", "0x12 "]
 
 
@@ -842,7 +875,7 @@ def value_pool(ty: str, name: str):
     if ty == "int":
         return ["1", "5", "0", "50"], INTS
     if ty == "float":
-        return ["1", "1.5", "10.5", "30", "0.5"], FLOATS
+        return ["1", "1.5", "10.5", "30", "0.5", "0"], FLOATS
     if ty == "bool":
         return ["True", "False"], BOOLS
     return ["abc", "x"], ["abc", "x", "", "a b"]
@@ -972,6 +1005,9 @@ def gen_arbitrary(rng, ifaces):
     return s
 
 
+ILL_TYPED_RATE = 0.1
+
+
 FOREIGN_KEYS = ["foo", "", "Host", "timeout", "hosts", "port ", "é"]
 
 
@@ -993,6 +1029,13 @@ def gen_defaults(rng, ifc: dict, all_ifaces):
     defs = []
     for name, ty in out.items():
         ok, allv = value_pool(ty, name)
+        if rng.random() < ILL_TYPED_RATE:
+            # a value of another type than the parameter declares (a caller's mistake)
+            kinds = ["s", "i", "b", "n", "f"]
+            k = rng.choice(kinds)
+            defs.append([name, k, {"s": rng.choice(["5", "abc", "", "True", "1.5", "N", "COM1", "h"]), "i": rng.choice([0, 1, 2, 5, 8, 35999, 70000, -1]),
+                                   "b": rng.choice([True, False]), "n": None, "f": rng.choice(["1.5", "2", "0.5", "1e3"])}[k]])
+            continue
         for _ in range(20):
             lit = rng.choice(allv) if rng.random() < 0.25 else rng.choice(ok)
             if name == "host" and lit.startswith("[") and lit.endswith("]") and rng.random() < 0.8:
@@ -1170,7 +1213,8 @@ def _typed_candidates(ty, tok: str, is_kw: bool):
     out = []
     try:
         if ty is str:
-            out.append(tok)
+            # documented since 1757bc8: in the string value of a keyword ':' is written "%3A" and '%' "%25"
+            out.append(re.sub("%(3A|25)", lambda m: ":" if m.group(1) == "3A" else "%", tok) if is_kw else tok)
         elif ty is int:
             try:
                 out.append(int(tok))
@@ -1210,6 +1254,22 @@ def _site(e: BaseException) -> str:
     return fn
 
 
+def _ill_typed(head: str, dpy: dict) -> bool:
+    """does the defaults dictionary hold, for a parameter of this interface, a value of another type than documented?"""
+    if head not in SPEC:
+        return False
+    types = dict(SPEC[head]["pos"])
+    types.update(SPEC[head]["kw"])
+    for k, v in dpy.items():
+        ty = types.get(k)
+        if ty is None:
+            continue
+        good = (isinstance(v, ty) and not (isinstance(v, bool) and ty is not bool)) or (ty is float and isinstance(v, int) and not isinstance(v, bool))
+        if not good:
+            return True
+    return False
+
+
 def oracle_ct(case: dict, raw):
     """C14 on one create_transport call. Returns (signature, summary) or None."""
     im = impl()
@@ -1234,6 +1294,8 @@ def oracle_ct(case: dict, raw):
                 sig += f"[{head}]:missing={','.join(missing)}:unexpected={','.join(unexpected)}"
             except Exception:
                 sig += f"[{head}]:" + _slug(str(raw))
+        elif _ill_typed(head, dpy):
+            sig = f"total:ill-typed-default:{type(raw).__name__}@{site}"
         else:
             sig += ":" + _slug(str(raw))
         return sig, f"create_transport({s!r}, {dpy or None!r}) [{'win32' if win else 'linux'}] raised {type(raw).__name__}: {str(raw)[:120]}"
@@ -1327,6 +1389,19 @@ def run_roundtrip(case: dict):
         if listed != descs:
             return sub, (f"roundtrip:list_usbtmc_transports:{'win' if win else 'linux'}:differs-from-format_resources",
                          f"list_usbtmc_transports() = {listed!r} but _format_resources({[res]!r}) = {descs!r}")
+        # the listers of both platform classes, called directly
+        try:
+            usbtmc_mod.list_resources = lambda: [res]
+            rm.list_resources = lambda self: (res,)
+            for cls in (im.pyusb.QMI_PyUsbTmcTransport, im.uvisa.QMI_VisaUsbTmcTransport):
+                got = cls.list_resources()
+                if got != descs:
+                    return sub, (f"roundtrip:{cls.__name__}.list_resources:differs-from-format_resources",
+                                 f"{cls.__name__}.list_resources() = {got!r} but _format_resources({[res]!r}) = {descs!r}")
+        finally:
+            usbtmc_mod.list_resources = old
+            if old_rm is not None:
+                rm.list_resources = old_rm
         has_serial = case["style"].count("%") == 3
         fields = res.split("::")
         if not has_serial or len(fields) < 5 or fields[3] != sn or fields[-1] != "INSTR":
@@ -1339,8 +1414,12 @@ def run_roundtrip(case: dict):
             return sub, (sig("not-listed"), f"_format_resources({[res]!r}) = {descs!r}")
         d = descs[0]
         ct = {"kind": "ct", "win": win, "s": d, "defaults": None}
-        sub += [ct, {"kind": "pps", "iface": "usbtmc", "s": d, "defaults": None}]
+        other = {"kind": "ct", "win": not win, "s": d, "defaults": None}
+        sub += [ct, other, {"kind": "pps", "iface": "usbtmc", "s": d, "defaults": None}]
+        o_out, o_raw = run_impl(other)
         out, raw = run_impl(ct)
+        if isinstance(raw, BaseException) != isinstance(o_raw, BaseException):
+            return sub, (sig("platforms-disagree"), f"{d!r}: {out[:80]!r} on one platform, {o_out[:80]!r} on the other")
         if isinstance(raw, BaseException):
             return sub, (sig(type(raw).__name__),
                          f"{res!r} is listed as {d!r}; create_transport of that raises {type(raw).__name__}: {str(raw)[:80]}")
@@ -1515,6 +1594,74 @@ def shrink_sequence(case: dict, sig: str) -> dict:
     return cur
 
 
+def fixed_corpus(tables) -> list:
+    """Deterministic cases that run first on every seed: every bound of every range / length limit in the modelled code and
+    its neighbours, related interface and keyword names (prefix, suffix, case), the same keyword twice, keywords before
+    positionals, every keyword alone, every default alone and all defaults together, both platforms."""
+    out = []
+
+    def add(sdesc, defs=None, both=False):
+        for win in ((False, True) if both else (False,)):
+            out.append({"kind": "ct", "win": win, "s": sdesc, "defaults": defs, "how": "corpus", "iface": sdesc.split(":", 1)[0].lower()[:8]})
+
+    ports = ["-1", "0", "1", "2", "35998", "35999", "36000", "65534", "65535", "65536", "65537", "99999999999999999999", "00080", "+80", "8_0"]
+    for iface in ("tcp", "udp"):
+        for pt in ports:
+            add(f"{iface}:h:{pt}")
+            add(f"{iface}:h", [["port", "i", int(pt.replace("_", ""))]])
+    for n in (62, 63, 64):
+        add("tcp:" + "a" * n + ":5")
+        add("vxi11:" + "a" * n + ".b")
+    for total in (253, 254, 255, 256, 257):
+        labels = (("a" * 63 + ".") * 4)[: total]
+        add("vxi11:" + labels)
+        add("tcp:" + labels + ":5")
+    for bs in ("3", "4", "5", "6", "7", "8", "9", "10"):
+        add(f"serial:COM1:baudrate=9600:bytesize={bs}")
+        add("serial:COM1", [["bytesize", "i", int(bs)]])
+    for br in ("-1", "0", "1", "2", "115200"):
+        add(f"serial:COM1:baudrate={br}")
+        add("serial:COM1", [["baudrate", "i", int(br)]])
+    for sb in ("0.9999999999999999", "1", "1.0", "1.0000000000000002", "1.4999999999999998", "1.5", "1.5000000000000002", "1.9999999999999998",
+               "2", "2.0000000000000004", "0", "3", "1e0", "15e-1", "0.2e1"):
+        add(f"serial:COM1:stopbits={sb}")
+        add("serial:COM1", [["stopbits", "f", sb]])
+    for i in ("-1", "0", "1", "65534", "65535", "65536", "0x0", "0xffff", "0x10000", "0xFFFF", "0Xffff"):
+        add(f"usbtmc:vendorid={i}:productid=1:serialnr=S", both=True)
+        add(f"usbtmc:vendorid=1:productid={i}:serialnr=S", both=True)
+    for digits in (4299, 4300, 4301):
+        add("tcp:h:" + "0" * (digits - 1) + "5")
+        add("gpib:" + "0" * (digits - 1) + "5", both=True)
+    # related names
+    for ifc in tables["ifaces"]:
+        name = ifc["name"]
+        valid = ":".join(gen_valid(__import__("random").Random(name), ifc, near=0.0))
+        rest = valid[len(name):]
+        for nm in (name.upper(), name.capitalize(), name + "x", "x" + name, name[:-1], name + " ", " " + name, name + "2", name + "_", name.replace("i", "İ"),
+                   name.replace("s", "ſ"), name + name):
+            add(nm + rest, both=name in ("usbtmc", "gpib"))
+        for kname, ty, _ in ifc["keywords"]:
+            v = value_pool(ty, kname)[0][0]
+            base = ":".join([name] + [value_pool(t2, n2)[0][0] for n2, t2, _r in ifc["positionals"]])
+            for kn in (kname.upper(), kname.capitalize(), kname + "s", kname[:-1], "_" + kname, kname + " ", " " + kname, kname + "=", kname * 2):
+                add(f"{base}:{kn}={v}", both=name in ("usbtmc", "gpib"))
+            add(f"{base}:{kname}={v}:{kname}={v}", both=name in ("usbtmc", "gpib"))                 # the same keyword twice
+            v2 = value_pool(ty, kname)[0][-1]
+            add(f"{base}:{kname}={v}:{kname}={v2}", both=name in ("usbtmc", "gpib"))
+            add(f"{name}:{kname}={v}" + base[len(name):], both=name in ("usbtmc", "gpib"))          # keyword before the positionals
+            add(f"{name}:{kname}={v}", both=name in ("usbtmc", "gpib"))                               # a keyword alone
+        alld = []
+        for n2, t2, _r in ifc["positionals"] + ifc["keywords"]:
+            lit = value_pool(t2, n2)[0][-1].strip("[]")
+            one = [n2, {"int": "i", "float": "f", "bool": "b", "str": "s"}[t2], (int(lit, 0) if t2 == "int" else (lit == "True") if t2 == "bool" else lit)]
+            alld.append(one)
+            add(valid, [one], both=name in ("usbtmc", "gpib"))
+            add(name + ":x=1", [one])
+        add(valid, alld, both=True)
+        add(name + ":" + (ifc["keywords"][0][0] + "=" + value_pool(ifc["keywords"][0][1], ifc["keywords"][0][0])[0][0] if ifc["keywords"] else "zz"), alld, both=True)
+    return out
+
+
 def shrink_ct(case: dict, sig: str) -> dict:
     """greedy deletion (characters of the string, entries of the defaults) keeping the same oracle signature"""
     def still(c):
@@ -1569,18 +1716,23 @@ class C14(Prop):
         "(pyInt, floatParse), and correct rounding of float literals at the stopbits test (floatIsStopbits): modelled, checked "
         "differentially; Unicode tables re-checked against unicodedata on every run",
         "glibc inet_pton for AF_INET/AF_INET6 (isIp4, isIp6) and its ValueError on NUL: modelled, checked differentially",
-        "the `__init__` bodies and `_validate_*` helpers (statement order, comparisons, constants) are hand-modelled in "
-        "`construct`; only the parser tables, constructor signatures, dispatch chain and the reserved UDP port are regenerated",
+        "semantics of the primitive validator tests (`Cond.holds`: <, >, ==, not in, .upper().startswith, the host test) on "
+        "every kind of value; *which* test with which constants guards which parameter, the statement order and the attribute "
+        "assignments are regenerated from the `__init__` / `_validate_*` ASTs and bound by the obligations gen_stores / gen_validators",
         "Python keyword-argument binding (bindArgs) and str.lower()/upper() on the interface and device names",
         "socket.gethostbyname('localhost') is pinned to 127.0.0.1 by the harness; sys.platform is switched by the harness",
-        "strings containing lone surrogates are outside the model (Lean Char = Unicode scalar value)",
-        "well-typed default dictionaries only (values of the parameter's declared type; int allowed for float parameters)",
+        "strings containing lone surrogates are outside the model (Lean Char = Unicode scalar value); the oracle judges them on "
+        "the implementation alone",
+        "defaults of any type (str/int/bool/None/float for any parameter) are inside the model, the theorems and the generator "
+        "since the type check of 665b86e",
     ]
 
     def translate(self, ctx: Ctx) -> list:
         global _TABLES
         check_python_assumptions()
-        t = _TABLES = read_tables()
+        _TABLES = None
+        t = read_tables()
+        _TABLES = t
         core.write_if_changed(GEN, render_gen(t))
         return [GEN]
 
@@ -1648,6 +1800,15 @@ class C14(Prop):
         names = [i["name"] for i in tables["ifaces"]]
         seen: dict = {}
 
+        # 0. the fixed corpus (same on every seed): bounds and their neighbours, related names, repeated keywords, ...
+        corpus = fixed_corpus(tables)
+        triples = self._batch(corpus, res, "fixed corpus")
+        for case, out, raw in triples:
+            res.note_case((case["s"], repr(case["defaults"]), case["win"]))
+            res.count("ct_corpus")
+            res.count("outcome_" + (out.split(" ")[1] if out.startswith("ok ") else out))
+        self._judge_ct(triples, res, seen)
+
         # 1. create_transport
         n_ct = ctx.scale(120000, 1500000)
         chunk = 50000
@@ -1711,6 +1872,21 @@ class C14(Prop):
                     seen[fail[0]] = True
                     res.failures.append(Failure(fail[0], fail[1], c))
         self._batch(subs, res, "roundtrip")
+        # 3b. strings with lone surrogates cannot be sent to the model (Lean Char); the property is judged on the
+        #     implementation alone: still a transport with the string's values, or the descriptor error
+        sur = []
+        for _ in range(ctx.scale(6000, 60000)):
+            c = self._gen_ct(rng, tables)
+            sdesc = c["s"]
+            for _k in range(rng.choice([1, 1, 2])):
+                k = rng.randint(0, len(sdesc))
+                sdesc = sdesc[:k] + chr(rng.choice([0xd800, 0xdbff, 0xdc00, 0xdfff])) + sdesc[k + (rng.random() < 0.3):]
+            c["s"] = sdesc
+            sur.append(c)
+        self._judge_ct([(c, *run_impl(c)) for c in sur], res, seen)
+        res.count("surrogate_cases_oracle_only", len(sur))
+        res.evaluations += len(sur)
+
         # 4. call histories: one defaults object shared by several calls; defaults as a read-only Mapping
         self._sequences(ctx, rng, tables, ctx.scale(5000, 60000), res, seen)
         res.extra["oracle"] = ("create_transport returns a transport of the named interface whose every parameter equals the typed "
@@ -1767,7 +1943,7 @@ class C14(Prop):
                     self._judge_ct([(cc, *run_impl(cc))], res, seen)
                     res.note_case(("case", repr(cc)))
         # systematic sweep: every canonical descriptor × every single mutation at every position × defaults × platform
-        tables = read_tables()
+        tables = tables_cached()
         rng = ctx.rng
         bases = []
         for ifc in tables["ifaces"]:
